@@ -184,6 +184,16 @@ class DetailedPlacement {
   }
 
   /**
+   * @brief Return true if the row polarity of the cell allows it in this row
+   */
+  bool isRowCompatible(int c, int row) const {
+    assert(c >= 0 && c < nbCells());
+    assert(row >= 0 && row < nbRows());
+    return cellOrientationInRow(cellRowPolarity_[c], rows_[row].orientation) !=
+           CellOrientation::INVALID;
+  }
+
+  /**
    * @brief Return the y position of the row
    */
   int rowY(int r) const {
